@@ -2391,6 +2391,8 @@ def check_C16(tier, seed):
     F.model_check(out, "Concurrency.tla", "Concurrency_same.cfg", expect_violation=True)
     # second mechanism model: seven caller operations, three updater operations, the keying of every kind of storage a parameter
     F.model_check(out, "ConcurrencyPaths.tla", "ConcurrencyPaths_other.cfg")
+    if tier != "quick":
+        F.model_check(out, "ConcurrencyPaths.tla", "ConcurrencyPaths_other3.cfg")     # three callers: 2.6 million distinct states
     negs = ["same", "cache"] + ["shared_" + k for k in ("hashpar", "ctrl", "vec", "svp", "slots", "vtbl", "disp", "handler")]
     for ng in (negs if tier != "quick" else ["same", "cache", "shared_handler", "shared_vec", "shared_hashpar"]):
         F.model_check(out, "ConcurrencyPaths.tla", "ConcurrencyPaths_%s.cfg" % ng, expect_violation=True)
